@@ -5,9 +5,10 @@ cast_cast_rule / no_op_cast_rule  (host_cast_cast, host_no_op_cast)
   static or symbolic dims, rank 0-3) and bfloat16 (only as an inner value: produced by a Cast, never a graph input/output,
   because onnxruntime's python binding cannot feed/fetch bfloat16); chain length 1-3 with every target over the same 13 types
   (biased to contain (FLOAT,FLOAT16|BFLOAT16) resp. a Cast to the incoming dtype); sample values rounding-sensitive
-  (f16/bf16 ties, double-rounding triples, f16 overflow boundary 65504/65519/65520, subnormals, 2^24+1, 2^53+1) in three
-  magnitude classes; `saturate`=1 (explicit default) at opset>=19; extra consumer / graph-output use of the inner Cast; chain source as
-  graph input or as node output (dtype unknown unless value_info).  Any float->int step is made well defined by a Clip in
+  (f16/bf16 ties, double-rounding triples, f16 overflow boundary 65504/65519/65520, subnormals, 2^24+1, 2^53+1) in four
+  magnitude classes (unit/mid/tiny/huge, one per case); `saturate`=1 (explicit default; onnxruntime rejects 0 for
+  non-float8 targets) at opset>=19; extra consumer / graph-output use of the inner Cast; chain source as graph input or
+  as node output (dtype unknown unless value_info).  Any float->int step is made well defined by a Clip in
   front of the chain ([-100,100] or [0,100]).
   not enumerated: string, float8/int4 types, complex, CastLike, `round_mode` (opset 24), Cast inside functions/subgraphs.
 no_op_expand_rule  (host_expand)
@@ -31,8 +32,8 @@ slice_split_rule  (host_slice_split)
   drawn: host opset pinned over {13,15,17,18,19,21,23}; x rank 1-4, last dim 0-8 (even/odd), leading dims static or symbolic,
   last dim symbolic; axes -1 / r-1 / another axis / differing / absent (3-input form) / 2-element; begin0 0 / 1 / -d;
   split point floor / ceil half / gap / overlap; end1 = d / INT64_MAX / INT32_MAX / d+1; steps input [1] on both / one,
-  [2]; node order [0:h] first or [h:d] first (2/3: the rule was observed to fire only in that order); a third Slice on the same x; index tensors int64 or int32, Constant / initializer / overridable /
-  computed from Shape(x).
+  [2]; node order [0:h] first or [h:d] first (2/3: the rule was observed to fire only in that order); a third Slice on
+  the same x; index tensors int64 or int32, Constant / initializer / overridable / computed from Shape(x).
   not enumerated: Slice-1 attribute form (opset < 10), negative steps.
 no_op_transpose_rule / transpose_transpose_rule  (host_transpose, host_transpose_transpose)
   drawn: rank 0-5, every permutation (hypothesis permutations; identity, inverse pair and equal pair boosted), perm absent on
